@@ -154,10 +154,13 @@ func Generate(c *sim.Ctx, cfg GenCfg) *Plan {
 	p.DropPm = []int{0, 30, 150}[c.Weighted(4, 2, 1)]
 	p.DupPm = []int{0, 60, 300}[c.Weighted(4, 2, 1)]
 	p.Rexmits = c.Weighted(4, 2, 1, 1)
-	switch c.Weighted(5, 2, 2) {
+	switch c.Weighted(5, 2, 2, 1) {
 	case 1:
 		p.PerConnLimit = 1 + c.Draw(8)
 	case 2:
+		p.TotalLimit = 1 + c.Draw(16)
+	case 3: // both at once: either may be the one that bites
+		p.PerConnLimit = 1 + c.Draw(8)
 		p.TotalLimit = 1 + c.Draw(16)
 	}
 	segClass := c.Weighted(2, 3, 3, 2)
